@@ -5,6 +5,7 @@ import Rangers.Model.Bls14Hash
 import Rangers.Model.Bls14Jac
 import Rangers.Model.Bls14G2
 import Rangers.Model.Bls14Pairing
+import Rangers.Model.Bls14Text
 /-!
 Line-protocol driver for C14. One op per line; see harness/cmd/c14/main.go for the
 Go side. Anything that does not parse answers `bad-op` (never a default).
@@ -62,6 +63,14 @@ def gt? (h : String) : Option F12 := do
   let f2 (i : Nat) : F2 := ⟨c i, c (i + 1)⟩
   let f6 (i : Nat) : F6 := ⟨f2 i, f2 (i + 2), f2 (i + 4)⟩
   some ⟨f6 0, f6 6⟩
+
+/-- a string token: hex of its ASCII bytes -/
+def str? (h : String) : Option (List Char) := (ofHex? h).map (fun b => b.map (fun c => Char.ofNat c.toNat))
+
+def setHexStr : SetHexRes → Nat → String
+  | .argFailed, old => "argfail " ++ toString old
+  | .ok v, _ => "ok " ++ toString v
+  | .unmodelled, _ => "unmodelled"
 
 def g1ValStr : G1Val → String
   | .nil => "nil"
@@ -235,6 +244,56 @@ def step (_ : Unit) (line : String) : Unit × String :=
       | some q => toHex (g2Marshal q)
       | none => "nil"
     | none => "bad-op"
+  | ["skhex", k] => match k.toNat? with
+    | some k => String.ofList (bnGetHexString k)
+    | none => "bad-op"
+  | ["skseth", old, sh] => match old.toNat?, str? sh with
+    | some old, some s => setHexStr (bnSetHexString old s) old
+    | _, _ => "bad-op"
+  | ["idhex", k] => match k.toNat? with
+    | some k => match idGetHexString k with
+      | some s => String.ofList s
+      | none => "PANIC"
+    | none => "bad-op"
+  | ["idseth", old, sh] => match old.toNat?, str? sh with
+    | some old, some s => setHexStr (bnSetHexString old s) old
+    | _, _ => "bad-op"
+  | ["idjson", k] => match k.toNat? with
+    | some k => match idGetHexString k with
+      | some s => String.ofList (jsonQuote s)
+      | none => "PANIC"
+    | none => "bad-op"
+  | ["idunjson", old, sh] => match old.toNat?, str? sh with
+    | some old, some s => match jsonStrip s with
+      | some inner => setHexStr (bnSetHexString old inner) old
+      | none => "short " ++ toString old
+    | _, _ => "bad-op"
+  | ["sighex", h] => match ofHex? h with
+    | some b => String.ofList (sigGetHexString (deserializeSign b))
+    | none => "bad-op"
+  | ["sigseth", h, sh] => match ofHex? h, str? sh with
+    | some b, some s =>
+      let (v, e) := sigSetHexString (deserializeSign b) s
+      "err=" ++ b01 e ++ " " ++ sigReport v
+    | _, _ => "bad-op"
+  | ["pkhex", h] => match ofHex? h with
+    | some b => String.ofList (pubGetHexString (byteToPublicKey b))
+    | none => "bad-op"
+  | ["pkseth", h, sh] => match ofHex? h, str? sh with
+    | some b, some s =>
+      let (v, e) := pubSetHexString (byteToPublicKey b) s
+      "err=" ++ b01 e ++ " " ++ pubReport v
+    | _, _ => "bad-op"
+  | ["pkjson", h] => match ofHex? h with
+    | some b => String.ofList (jsonQuote (pubGetHexString (byteToPublicKey b)))
+    | none => "bad-op"
+  | ["pkunjson", h, sh] => match ofHex? h, str? sh with
+    | some b, some s => match jsonStrip s with
+      | some inner =>
+        let (v, e) := pubSetHexString (byteToPublicKey b) inner
+        "err=" ++ b01 e ++ " " ++ pubReport v
+      | none => "short " ++ pubReport (byteToPublicKey b)
+    | _, _ => "bad-op"
   | ["skser", k] => match k.toNat? with
     | some k => toHex (scalarSerialize k)
     | none => "bad-op"
